@@ -5,7 +5,10 @@ Families:
         `alphabet(kind)` for each of the ten model types
   tgt   targeted length-3..5 histories: cancel the most recently labelled variable before a reducing conversion;
         constraint ; refresh/copy/*=dict/**=/clear ; constraint on PCBO/PCSO
-  rnd   random histories of length <= 12 (with a bias towards cancelling what was just stored)
+  rnd   random histories of length <= 12 (with a bias towards cancelling what was just stored); coefficients also as
+        numpy.int64/float64 scalars and bool, labels from Labels.STYLES_X
+Self-aliased in-place operands (`H -= H`, `H += H`, `H *= H`, `H.update(H)`, control `H -= H.copy()`) are edits of the
+history language on all ten types (exhaustive pairs, constraint ; op ; constraint, random).
 After every edit the live object's terms (with dict order), mapping, reverse_mapping, variables, degree,
 num_binary_variables, max_index, num_ancillas, constraints and the raised exception are compared with the
 Lean model (`Qv.Book.trace`); at the end the label sets of to_pubo/to_qubo/to_puso/to_quso.
@@ -24,7 +27,8 @@ RULE = ("edit histories on a fresh model of each of the ten types: all histories
         "cancellations, +=,-=,*=,/=,**= with dict/scalar, update, clear, refresh, copy, six comparison "
         "constraints on PCBO/PCSO); every copy-like operation after which the history goes on with the result "
         "(round(H[,n]), H.subs, constructors T(H) of the own and of other classes, H+c, c+H, H-c, c-H, H*c, c*H, -H, +H, "
-        "H/c, H**e, H+dict, H*dict, set_mapping with a permutation, update(model of the own / another class)) paired "
+        "H/c, H**e, H+dict, H*dict, set_mapping with a permutation, update(model of the own / another class)) and every "
+        "self-aliased in-place operation (H -= H, H += H, H *= H, H.update(H), control H -= H.copy()) paired "
         "in both orders with the in-place edits and with each other; targeted histories (cancel the newest label "
         "before a reducing conversion; constraint ; copy-like ; constraint); random histories of length <=12 over "
         "everything; realised with int/str/tuple/mixed labels; non-trivial = at some step a cached quantity is "
@@ -63,8 +67,11 @@ def labels_for(kind, style):
     if kind in MATRIX:
         return Labels("int")
     if kind in PC:
-        # tuples / lower-case strings would sort after '__a<k>' (non-monotone, DESIGN §3.1)
-        return Labels("int") if style in ("int", "mixed") else UpperLabels()
+        # tuples / lower-case strings would sort after '__a<k>' (non-monotone, DESIGN §3.1); ints and floats sort
+        # before every string under the library's (str(type), x) order
+        if style in ("num", "numstr"):
+            return Labels("num")
+        return Labels("int") if style in ("int", "mixed", "boolstr") else UpperLabels()
     return Labels(style)
 
 
@@ -139,6 +146,8 @@ COPYLIKE = [
     B({"t": "addD", "q": [[[4, 4], "0"], [[1], "1"]]}), B({"t": "mulD", "q": [[[0], "1"], [[], "1"]]}),
     {"t": "neg"}, {"t": "pos"}, {"t": "rsubC", "c": "1"}, {"t": "remap"},
 ]
+# self-aliased in-place operands (and the un-aliased control)
+SELFOPS = [{"t": "isubSelf"}, {"t": "iaddSelf"}, {"t": "imulSelf"}, {"t": "updateSelf"}, {"t": "isubCopy"}]
 
 
 def cast_targets(kind):
@@ -161,7 +170,8 @@ def update_args(kind):
 
 
 def copylike(kind):
-    out = list(COPYLIKE) + [{"t": "cast", "kind": k} for k in dict.fromkeys(cast_targets(kind))] + update_args(kind)
+    out = list(COPYLIKE) + [{"t": "cast", "kind": k} for k in dict.fromkeys(cast_targets(kind))] + update_args(kind) \
+        + SELFOPS
     if kind in PC:
         out.append(UM(kind, [CONS[2], CONS[0]]))
     return out
@@ -179,7 +189,7 @@ def alphabet(kind, small=False, new=True):
     if new:
         cl = copylike(kind)
         # small: round(), H * 1, update(model of the own class)
-        a += [cl[0], cl[7], cl[len(COPYLIKE) + len(dict.fromkeys(cast_targets(kind)))]] if small else cl
+        a += [cl[0], cl[7], cl[len(COPYLIKE) + len(dict.fromkeys(cast_targets(kind)))], SELFOPS[0]] if small else cl
     return a
 
 
@@ -214,7 +224,8 @@ def rnd_edit(rng, kind, nlab):
     deg2 = kind in ("QUBO", "QUSO", "QUBOMatrix", "QUSOMatrix")
     ops = ["set"] * 5 + ["aug"] * 5 + ["iaddD", "isubD", "iaddC", "isubC", "imulD", "imulD", "imulC", "idivC",
                                        "ipow", "update", "update", "clear", "refresh", "copy"]
-    ops += ["round", "round", "subs", "cast", "cast", "bin", "bin", "bin", "neg", "pos", "rsubC", "remap", "updateM"]
+    ops += ["round", "round", "subs", "cast", "cast", "bin", "bin", "bin", "neg", "pos", "rsubC", "remap", "updateM",
+            "isubSelf", "iaddSelf", "imulSelf", "updateSelf", "isubCopy"]
     if kind in PC:
         ops += ["cons"] * 5 + ["round", "updateM", "bin"]
     t = rng.choice(ops)
@@ -295,7 +306,9 @@ def rnd_history(rng, kind):
             ncons += k2
         if e["t"] == "cast":
             kind = e["kind"]              # the edits that follow are drawn for the new class
-        if e["t"] == "bin" and e["a"]["t"] in ("pow", "mulD"):
+        if e["t"] == "imulSelf":
+            e2 = {"t": "ipow", "e": 2}
+        elif e["t"] == "bin" and e["a"]["t"] in ("pow", "mulD"):
             e2 = {"t": "ipow", "e": e["a"].get("e", 1)} if e["a"]["t"] == "pow" else {"t": "imulD"}
         else:
             e2 = e
@@ -316,8 +329,21 @@ def rnd_history(rng, kind):
 
 # ------------------------------------------------------------------ implementation side
 
+_VS = ["plain"]
+
+
 def num(s):
+    """a coefficient: int / Fraction; `np`: numpy.int64 / numpy.float64 (dyadic values) scalars, whose zero is falsy
+    like 0; `bool`: True / False for 1 / 0 (bool is an int: True == 1, and `if value:` decides what is stored)"""
     f = Fraction(s)
+    if _VS[0] == "bool" and f in (0, 1):
+        return bool(f)
+    if _VS[0] == "np":
+        import numpy as np
+        if f.denominator == 1 and abs(f) < 2 ** 40:
+            return np.int64(int(f))
+        if f.denominator & (f.denominator - 1) == 0:
+            return np.float64(float(f))
     return int(f) if f.denominator == 1 else f
 
 
@@ -409,6 +435,16 @@ def apply_edit(H, e, L):
         H.set_mapping({l: len(m) - 1 - i for l, i in m.items()})
     elif t == "updateM":
         H.update(build_arg(e["arg"], L))
+    elif t == "iaddSelf":
+        H += H
+    elif t == "isubSelf":
+        H -= H
+    elif t == "imulSelf":
+        H *= H
+    elif t == "updateSelf":
+        H.update(H)
+    elif t == "isubCopy":
+        H -= H.copy()
     else:
         raise common.Infra("bad edit " + t)
     return H
@@ -607,6 +643,7 @@ def conv_labels(outs):
 def run_impl(case, with_oracle=True):
     """returns (steps, conv label sets, first oracle failure or None, stale flag)"""
     kind, L = case["kind"], labels_for_case(case)
+    _VS[0] = case.get("vstyle", "plain")
     H = cls_of(kind)()
     steps, fail, stale = [], None, False
     allocated, drop, foreign = set(), None, set()
@@ -633,10 +670,16 @@ def run_impl(case, with_oracle=True):
             allocated = set()
         elif kind in PC and drop is None and H.num_ancillas < anc0 and e["t"] != "clear":
             drop = e["t"]
+        counter_back = kind == kind0 and kind in PC and e["t"] != "clear" and H.num_ancillas < anc0
         if true_vars(H) != H.variables or true_degree(H) != H.degree:
             stale = True
         if with_oracle and fail is None:
             bad = oracle_step(H, kind, foreign)
+            if bad is None and counter_back:
+                # O4 (counter form): names are "__a%d" % counter, so a counter that goes backwards (other than by
+                # clear(), which empties the model) hands the names between the new and the old value out again
+                bad = ("O4-counter-decreased", "num_ancillas went back from %d to %d: the next ancilla-creating "
+                       "constraint hands out __a%d..__a%d a second time" % (anc0, H.num_ancillas, H.num_ancillas, anc0 - 1))
             if bad is None and kind in PC:
                 # O4 (history form): names handed out by a constraint were never handed out before
                 if e["t"] == "clear":
@@ -715,13 +758,13 @@ def signature(case, fail):
                 and extra and extra <= touched:
             return "C14:D1-setitem-registers-unstored-label"
     kind = fail.get("kind", kind)
-    if cl in ("O4-ancilla-not-fresh", "O4-ancilla-reused") and fail.get("counter_dropped_by") == "round":
+    if cl in ("O4-ancilla-not-fresh", "O4-ancilla-reused", "O4-counter-decreased") and fail.get("counter_dropped_by") == "round":
         # before 0d891c4 round() kept constraints and __a* terms but restarted the counter
         return "C14:round-ancilla-counter"
     if cl == "O4-ancilla-not-fresh" and e is not None and e["t"] == "updateM" and e["arg"]["kind"] == kind:
         # before 1495eb6 update(model) merged the argument's constraints and __a* terms, not its counter
         return "C14:D10-update-model-leaves-ancilla-counter"
-    if cl in ("O4-ancilla-not-fresh", "O4-ancilla-reused") and fail.get("counter_dropped_by") in ("imulD", "ipow"):
+    if cl in ("O4-ancilla-not-fresh", "O4-ancilla-reused", "O4-counter-decreased") and fail.get("counter_dropped_by") in ("imulD", "ipow"):
         return "C14:D2-imul-dict-resets-pcbo-ancilla-and-constraints"
     if cl.startswith("O5-") and kind in ("PUSO", "PCSO") and cl.split("-")[1] in ("to_qubo", "to_quso", "to_pubo", "to_puso") \
             and (cl.endswith("-function") or cl.endswith("-labels")) and fail.get("stale_count"):
@@ -786,10 +829,17 @@ def compare(case, steps, conv, model):
 def process(ctx, cases, family):
     models = common.run_driver([model_line(c) for c in cases])
     for c, m in zip(cases, models):
-        steps, conv, fail, stale = run_impl(c)
+        try:
+            steps, conv, fail, stale = run_impl(c)
+        except common.Infra:
+            raise
+        except Exception as ex:      # the harness itself must not die on a changed tree: a broken correspondence
+            ctx.case(c, False); ctx.traces += 1
+            ctx.diff(family + ":harness-exception", c, "%s: %s" % (type(ex).__name__, ex), None)
+            continue
         nontrivial = len(c["hist"]) >= 2 and (stale or any(
             e["t"] in ("imulD", "ipow", "copy", "refresh", "cons", "round", "subs", "cast", "bin", "neg", "pos", "rsubC",
-                       "updateM", "remap") for e in c["hist"][1:]))
+                       "updateM", "remap", "isubSelf", "iaddSelf", "imulSelf", "updateSelf", "isubCopy") for e in c["hist"][1:]))
         ctx.case(c, nontrivial)
         ctx.count("%s:%s" % (family, c["kind"]))
         ctx.count("len:%d" % len(c["hist"]))
@@ -815,7 +865,8 @@ def process(ctx, cases, family):
 
 _seen_sigs = set()
 
-STYLES = ("int", "str", "tuple", "mixed")
+STYLES = Labels.STYLES_X      # int, str, tuple, mixed, num (floats+ints), numstr, boolstr (False/True + strings)
+VSTYLES = ("plain", "plain", "plain", "np", "bool")
 
 
 def exhaustive_cases(ctx):
@@ -837,7 +888,7 @@ def exhaustive_cases(ctx):
             key = [cl[i] for i in (0, 1, 3, 7, 12, 15, 18)] + cl[len(COPYLIKE):]
             hs += [[a, b] for a in cl for b in part] + [[a, b] for a in part for b in cl] + [[a, b] for a in key for b in key]
         for h in hs:
-            cases.append(dict(kind=kind, hist=h, style=STYLES[(i + ctx.seed) % 4]))
+            cases.append(dict(kind=kind, hist=h, style=STYLES[(i + ctx.seed) % len(STYLES)]))
             i += 1
     return cases
 
@@ -863,7 +914,7 @@ def targeted_cases(ctx):
                     for tail in ([], [{"t": "copy"}], [A([1], "add", "1")]):
                         if tail and tail[0]["t"] == "copy":
                             continue          # a copy re-enumerates: nothing stale afterwards
-                        out.append(dict(kind=kind, hist=[b, intro, c] + tail, style=STYLES[(i + ctx.seed) % 4]))
+                        out.append(dict(kind=kind, hist=[b, intro, c] + tail, style=STYLES[(i + ctx.seed) % len(STYLES)]))
                         i += 1
             if kind in ("QUBO", "QUSO"):
                 break
@@ -872,14 +923,14 @@ def targeted_cases(ctx):
             {"t": "round", "nd": None}, {"t": "round", "nd": 0}, {"t": "subs"}, B({"t": "addC", "c": "0"}, refl=True),
             B({"t": "mulC", "c": "1"}), B({"t": "pow", "e": 1}), B({"t": "pow", "e": 2}), {"t": "neg"}, {"t": "pos"},
             {"t": "rsubC", "c": "0"}, B({"t": "divC", "c": "1"}), {"t": "remap"},
-            B({"t": "mulD", "q": [[[0], "1"], [[], "1"]]})]
+            B({"t": "mulD", "q": [[[0], "1"], [[], "1"]]})] + SELFOPS
     for kind in ("PCBO", "PCSO"):
         for c1 in CONS[:5]:
             for mid in mids + [{"t": "cast", "kind": kind}, UM(kind, [CONS[0]]), UM(kind, [CONS[2], S([5], "1")])]:
                 for c2 in (CONS[0], CONS[2]):
-                    out.append(dict(kind=kind, hist=[c1, mid, c2], style=STYLES[(i + ctx.seed) % 4]))
+                    out.append(dict(kind=kind, hist=[c1, mid, c2], style=STYLES[(i + ctx.seed) % len(STYLES)]))
                     out.append(dict(kind=kind, hist=[c1, A([7], "add", "3"), A([7], "sub", "3"), mid, c2],
-                                    style=STYLES[(i + ctx.seed) % 4]))
+                                    style=STYLES[(i + ctx.seed) % len(STYLES)]))
                     i += 1
     return out
 
@@ -889,8 +940,22 @@ def random_cases(ctx, n):
     out = []
     for i in range(n):
         kind = KINDS[i % len(KINDS)] if rng.random() < 0.6 else rng.choice(["PCBO", "PCSO", "PUBO", "PUSO"])
-        out.append(dict(kind=kind, hist=rnd_history(rng, kind), style=rng.choice(STYLES)))
+        c = dict(kind=kind, hist=rnd_history(rng, kind), style=rng.choice(STYLES))
+        vs = rng.choice(VSTYLES)
+        if vs != "plain" and not any(zero_div(e) for e in c["hist"]):
+            c["vstyle"] = vs           # numpy scalars divide by zero to inf instead of raising
+        out.append(c)
     return out
+
+
+def zero_div(e):
+    if e["t"] == "idivC" or (e["t"] == "aug" and e["a"] == "div"):
+        return Fraction(e.get("c", e.get("d"))) == 0
+    if e["t"] == "bin" and e["a"]["t"] == "divC":
+        return Fraction(e["a"]["c"]) == 0
+    if e["t"] == "updateM":
+        return any(zero_div(x) for x in e["arg"]["hist"])
+    return False
 
 
 def probes(ctx):
